@@ -190,6 +190,34 @@ func subCodec(out string, seed uint64, tier string, arg string) {
 		kept = append(kept, keptEnc{o, rs, b, string(b)})
 		checkDecoded(rep, o, rs, b, "")
 	}
+	// result sets with no results at all (an empty registry; a CRL linted with a registry holding certificate lints
+	// only) and with a single result
+	{
+		empty := lint.NewRegistry()
+		certOnly, _ := g.Filter(lint.FilterOptions{IncludeNames: []string{"e_ca_is_ca"}})
+		for _, o := range objs {
+			if len(kept) > 0 && rep.Dist["empty-set:"+o.Kind] >= 3 {
+				continue
+			}
+			for _, reg := range []lint.Registry{empty, certOnly} {
+				if reg == nil {
+					continue
+				}
+				rs, p := lintObj(o, reg)
+				if p != "" || rs == nil || len(rs.Results) > 1 {
+					continue
+				}
+				rep.count("empty-set:" + o.Kind)
+				rep.Evaluations++
+				b, err := json.Marshal(rs)
+				if err != nil {
+					rep.violate(Violation{"C14", fmt.Sprintf("a result set with %d results does not marshal: %v", len(rs.Results), err), "marshal-empty", replayOf(o, nil)})
+					continue
+				}
+				checkDecoded(rep, o, rs, b, fmt.Sprintf(" (a result set with %d results)", len(rs.Results)))
+			}
+		}
+	}
 	// encodings handed out earlier must still be what they were (an encoder that returns a slice of a buffer it
 	// re-uses would rewrite them), and still decode to their own result set
 	for _, k := range kept {
